@@ -7,7 +7,7 @@ import z3
 from mirsym.explore import PathAbort, Panic
 from mirsym.interp import NOT_HANDLED
 from mirsym.values import clone_val, BoxV, Err, Ok
-from mirsym.models.core import Ready
+from mirsym.models.core import Ready, val_eq, z_all
 from .common import get_interp, tasks_eq, show, ModelServer
 from .syncworld import SyncWorld, judge_convergence
 
@@ -78,6 +78,18 @@ class Harness:
         twin = [[k, v] for k, v in w.tasks_of(dbs[0]).items]
         if not c.prove(tasks_eq(w.replica_tasks(0), twin), 'result differs from the uninterrupted sync', w.witness,
                        {'class': 'differs-from-uninterrupted', 'fault': injected}):
+            return None
+        # "none takes effect twice": the operations that reached the chain are those of the uninterrupted run, once each
+        def chain_ops(chain):
+            out = []
+            for _, _, p in chain[len(pre_chain):]:
+                js = p.payload if hasattr(p, 'payload') else p
+                out.extend(js.src.fields[0].items)
+            return out
+        a, b = chain_ops(w.server.chain), chain_ops(srv.chain)
+        same = len(a) == len(b) and z_all(val_eq(x, y) for x, y in zip(a, b))
+        if not c.prove(same, 'the operations on the chain differ from the uninterrupted run (a change was sent twice or not at all)', w.witness,
+                       {'class': 'chain-differs-from-uninterrupted', 'fault': injected, 'ops': [len(a), len(b)]}):
             return None
         return w.sample({'fault': injected})
 
@@ -163,6 +175,15 @@ def replay_judge(scn, out, v):
     b = [r['tasks'] for r in twin.get('replicas', [])]
     if a != b:
         probs.append({'interrupted_final': a, 'uninterrupted_final': b})
+
+    def sent(o):
+        ops = []
+        for ver in o.get('server', {}).get('versions', []):
+            d = ver.get('doc')
+            ops.extend(d.get('operations', []) if isinstance(d, dict) else [])
+        return ops
+    if sent(real) != sent(twin):
+        probs.append({'operations_on_chain_interrupted': sent(real)[:8], 'uninterrupted': sent(twin)[:8]})
     return bool(probs), probs[:3]
 
 
